@@ -59,7 +59,17 @@ pub enum Op {
         ty: FloatTy,
         which: u8,
     },
+    /// configure NaN string number `idx` of `NAN_POOL`; if the options builder accepts it, NaN must
+    /// be written as exactly that string and the bytes must be ASCII
+    WNanCustom {
+        ty: FloatTy,
+        idx: u8,
+    },
 }
+
+pub const NAN_POOL: [&[u8]; 12] = [
+    b"NaN", b"nan", b"NAN", b"N", b"nAn", b"Nanana", b"N\xc1", b"n\xe9n", b"\xffan", b"na\x80", b"N\xd0\x9d", b"n\xfa",
+];
 
 fn hex(b: &[u8]) -> String {
     let mut s = String::with_capacity(b.len() * 2 + 1);
@@ -129,6 +139,9 @@ impl Op {
             Op::WSpecialOff {
                 ..
             } => "WSpecialOff",
+            Op::WNanCustom {
+                ..
+            } => "WNanCustom",
         }
     }
 
@@ -195,6 +208,10 @@ impl Op {
                 ty,
                 which,
             } => format!("WSpecialOff {} {}", ty.name(), which),
+            Op::WNanCustom {
+                ty,
+                idx,
+            } => format!("WNanCustom {} {}", ty.name(), idx),
         }
     }
 
@@ -248,6 +265,10 @@ impl Op {
             "WSpecialOff" if f.len() == 3 => Some(Op::WSpecialOff {
                 ty: FloatTy::from_name(f[1])?,
                 which: f[2].parse().ok()?,
+            }),
+            "WNanCustom" if f.len() == 3 => Some(Op::WNanCustom {
+                ty: FloatTy::from_name(f[1])?,
+                idx: f[2].parse::<u8>().ok().filter(|i| (*i as usize) < NAN_POOL.len())?,
             }),
             _ => None,
         }
@@ -323,6 +344,10 @@ impl Op {
                     "inf"
                 }
             ),
+            Op::WNanCustom {
+                ty,
+                idx,
+            } => format!("write::<{}>(NaN) with nan_string = \"{}\"", ty.name(), show_text(NAN_POOL[*idx as usize])),
         }
     }
 }
@@ -1458,6 +1483,68 @@ fn exec_special_off<T: SimFloat>(ty: FloatTy, which: u8, arena: &mut Arena, out:
     }
 }
 
+fn exec_nan_custom<T: SimFloat>(ty: FloatTy, idx: u8, arena: &mut Arena, out: &mut OpResult) {
+    const STD: u128 = lexical_core::format::STANDARD;
+    let s: &'static [u8] = NAN_POOL[idx as usize];
+    let built = guarded(|| WriteFloatOptions::builder().nan_string(Some(s)).build());
+    let opts = match built {
+        Ok(Ok(o)) => o,
+        Ok(Err(e)) => {
+            out.record = format!("rejected {:?}", e);
+            if is_ascii(s) && s.iter().all(|c| c.is_ascii_alphabetic()) && (s[0] == b'n' || s[0] == b'N') {
+                out.fail("C18", format!("valid NaN string \"{}\" rejected: {:?}", show_text(s), e));
+            }
+            return;
+        },
+        Err(m) => {
+            out.caught_panic = true;
+            out.fail("C18", format!("options builder panicked: {}", m));
+            return;
+        },
+    };
+    let bits = match ty {
+        FloatTy::F32 => f32::NAN.to_bits() as u64,
+        FloatTy::F64 => f64::NAN.to_bits(),
+    };
+    let v = T::from_b(bits);
+    let bound = T::FORMATTED_SIZE_DECIMAL;
+    arena.arm(bound);
+    let r = {
+        let buf = arena.buf(bound);
+        guarded(|| lexical_core::write_with_options::<T, STD>(v, buf, &opts).len())
+    };
+    if let Some(off) = arena.damaged(bound) {
+        out.fail("C09", format!("byte at offset {} outside the caller's slice was overwritten", off));
+    }
+    match r {
+        Err(m) => {
+            out.caught_panic = true;
+            out.record = "panic".into();
+            out.fail("C15", format!("writing NaN with an accepted custom string panicked: {}", m));
+        },
+        Ok(n) => {
+            let got = arena.buf(bound)[..n.min(bound)].to_vec();
+            out.record = show_text(&got);
+            if !is_ascii(&got) {
+                out.fail(
+                    "C17",
+                    format!("writer emitted non-ASCII bytes {:x?} under options the builder accepted as valid", got),
+                );
+            }
+            if got != s {
+                out.fail("C15", format!("NaN written as \"{}\", configured string is \"{}\"", show_text(&got), show_text(s)));
+            }
+            if is_ascii(&got) {
+                match guarded(|| lexical::to_string_with_options::<T, STD>(v, &opts)) {
+                    Ok(st) if st.as_bytes() == &got[..] => {},
+                    Ok(st) => out.fail("C17", format!("lexical::to_string_with_options returned \"{}\", core wrote \"{}\"", show_text(st.as_bytes()), show_text(&got))),
+                    Err(m) => out.fail("C17", format!("lexical::to_string_with_options panicked: {}", m)),
+                }
+            }
+        },
+    }
+}
+
 /// Execute one call on this worker's arena and judge it against the reference model.
 pub fn exec(op: &Op, arena: &mut Arena) -> OpResult {
     exec_mode(op, arena, false)
@@ -1522,6 +1609,10 @@ pub fn exec_mode(op: &Op, arena: &mut Arena, lite: bool) -> OpResult {
             ty,
             which,
         } => float_dispatch!(*ty, T => exec_special_off::<T>(*ty, *which, arena, &mut out)),
+        Op::WNanCustom {
+            ty,
+            idx,
+        } => float_dispatch!(*ty, T => exec_nan_custom::<T>(*ty, *idx, arena, &mut out)),
     }
     out
 }
